@@ -26,13 +26,19 @@ def run(ctx):
         noise = (i % 4 == 3)
         o["RFPhaseModAmplitude"] = amp
         o["RFPhaseModFrequency"] = freq
+        if i % 4 == 1:
+            # the time step given per revolution (overrides StepsPerTs, which stays at another value): the modulation advances by f*dt of *that* step
+            o["StepsPerRevolution"] = round(steps * 1.37 * P0["fs"] / P0["frev"], 6)
+            o["StepsPerTs"] = r.choice([2 * steps, max(20, steps // 3)])
+            o["_per_rev"] = True
         if noise:
             o["RFPhaseSpread"] = 0.01
             o["RFAmplitudeSpread"] = 1e-4
         if r.chance(0.3):
             o["VacuumGap"] = 0
+        per_rev = bool(o.pop("_per_rev", False))
         res = prog.run_inovesa("rel", o, d, os.path.join(d, "xdg"), timeout=600)
-        out = dict(i=i, opts=o, cmd=" ".join(res["argv"]), viol=[], rows=0)
+        out = dict(i=i, per_rev=per_rev, opts=o, cmd=" ".join(res["argv"]), viol=[], rows=0)
         if prog.program_outcome_key(res) or res["rc"] != 0:
             out["incon"] = "run failed: %s" % res["err"][-200:]
             return out
@@ -66,9 +72,12 @@ def run(ctx):
             continue
         ctx.case("prog:%s" % sorted((k, str(v)) for k, v in res["opts"].items()))
         ctx.ev("program_runs")
+        if res.get("per_rev"):
+            ctx.ev("program_runs_with_steps_per_revolution")
         ctx.ev("program_rfkick_rows", res["rows"])
         if "worst" in res:
             ctx.residual("prog.modulation_err_over_tol", res["worst"], 1.0)
         for key, what, wd in res["viol"]:
             ctx.violation(key, what, wd)
     ctx.min_events["program_runs"] = max(2, n // 2)
+    ctx.min_events["program_runs_with_steps_per_revolution"] = 1
